@@ -453,8 +453,18 @@ pub fn doubling_probe_c09<M: Machine>(slot: u16, s: &Slot<M>, stats: &mut Stats)
             Err(p) => return Some(Violation::new("C09", "merge-of-valid-states-failed", slot, format!("a state of {n} observations merged with its own copy: {p}"))),
         }
     }
+    // ... and once more with the state itself: 2^k + 1 copies, a count that is not a multiple of a
+    // large power of two (a counter kept in a narrower or floating type stalls exactly there)
+    {
+        let (a, b) = (st.clone(), s.st.clone());
+        match guard(|| M::merge(a, b, op + 1)) {
+            Ok(x) => st = x,
+            Err(p) => return Some(Violation::new("C09", "merge-of-valid-states-failed", slot, format!("2^{k} copies of a state of {n} observations merged with one more copy: {p}"))),
+        }
+    }
     stats.inc("c09_population_doubling_probes");
-    let want = n << k;
+    let copies = (1u64 << k) + 1;
+    let want = n * copies;
     let plan = ObsPlan { confs: &[], unguarded: false };
     let o = M::observe(&st, plan);
     match obs_get(&o, What::Count(0)) {
@@ -464,7 +474,7 @@ pub fn doubling_probe_c09<M: Machine>(slot: u16, s: &Slot<M>, stats: &mut Stats)
                 "C09",
                 "count-mismatch-after-self-merges",
                 slot,
-                format!("{n} observations merged with themselves {k} times: the state reports {:?}, one batch over that population holds {want}", other.map(|v| v.render())),
+                format!("2^{k} + 1 copies of {n} observations (self-merges): the state reports {:?}, one batch over that population holds {want}", other.map(|v| v.render())),
             ))
         }
     }
@@ -475,7 +485,7 @@ pub fn doubling_probe_c09<M: Machine>(slot: u16, s: &Slot<M>, stats: &mut Stats)
         Flt::F32 => f32::MAX as f64,
         _ => f64::MAX,
     };
-    let scale = 2f64.powi(k as i32);
+    let scale = copies as f64;
     if !(sm.a_f * scale < fmax / 8.0 && sm.q_f * scale < fmax / 8.0) {
         stats.inc("c09_population_doubling_range_skipped");
         return None;
@@ -497,7 +507,7 @@ pub fn doubling_probe_c09<M: Machine>(slot: u16, s: &Slot<M>, stats: &mut Stats)
             "C09",
             "mean-differs-from-batch-after-self-merges",
             slot,
-            format!("{n} observations merged with themselves {k} times (count {want}): mean {:?}, the mean of the population is {:?}: |diff| in accumulation space {:e} > tol {:e}", mk, m0, d, tol),
+            format!("2^{k} + 1 copies of {n} observations (self-merges, count {want}): mean {:?}, the mean of the population is {:?}: |diff| in accumulation space {:e} > tol {:e}", mk, m0, d, tol),
         ));
     }
     if !t.well {
@@ -514,7 +524,7 @@ pub fn doubling_probe_c09<M: Machine>(slot: u16, s: &Slot<M>, stats: &mut Stats)
                 "C09",
                 "variance-differs-from-batch-after-self-merges",
                 slot,
-                format!("{n} observations merged with themselves {k} times (count {want}): variance {:?}, the variance of that population is {:?}: |diff| {:e} > tol {:e}", vk, var_want, d, tol),
+                format!("2^{k} + 1 copies of {n} observations (self-merges, count {want}): variance {:?}, the variance of that population is {:?}: |diff| {:e} > tol {:e}", vk, var_want, d, tol),
             ));
         }
     }
